@@ -7,7 +7,7 @@ import z3
 from fractions import Fraction
 
 from vlib import env
-from vlib.zrun import twin_verdict, explore_and_prove, all_eq, concretize, pyrepr, eq_term, wrapper_exc
+from vlib.zrun import conjunct_prover, twin_verdict, explore_and_prove, all_eq, concretize, pyrepr, eq_term, wrapper_exc
 from vlib.zsym import Real, Int, SymNum, lift, model_value, _q
 
 META = {
@@ -303,7 +303,7 @@ def task_fractions(nsub):
         conds += [lift(r2["H2O"]) > 0, lift(r2["Fe+3"]) > 0]
         return z3.And(*conds)
 
-    o = explore_and_prove(run, assum, goal)
+    o = explore_and_prove(run, assum, goal, prover=conjunct_prover)
     ot = explore_and_prove(run, assum, lambda p: goal(p, True), max_fail=1)
     res = dict(engine="Z", functions=[env.describe(mass_fractions)], obligations=o.obligations, discharged=o.discharged, violations=[],
                inconclusive=o.inconclusive, queries=o.queries, paths=o.paths, solver_s=o.solver_s, twin=twin_verdict(ot),
